@@ -38,7 +38,7 @@ for _n in ('pyx12.error_handler', 'pyx12.error_997', 'pyx12.error_999', 'pyx12.x
 
 ENVK = {'ISA': 'ISA', 'GS': 'GS', 'ST': 'ST', 'SE': 'SE', 'GE': 'GE', 'IEA': 'IEA'}
 _BASE = pyx12.error_handler.err_handler
-_RE_REF = re.compile(r'^(?:[A-Z][A-Z0-9]{1,2})?(\d{1,2})(?:-(\d+))?$')
+_RE_REF = re.compile(r'^(?:[A-Z][A-Z0-9]{1,2})?([0-9]{2})(?:-([0-9]+))?$')
 
 
 def S(v):
@@ -133,6 +133,7 @@ class Recorder(_BASE):
         kind = ''
         if isinstance(refdes, int):
             kind = 'syntax'          # relational condition: refdes is the first element of the rule
+            rpos = int(refdes)
         else:
             m = _RE_REF.match(S(refdes))
             if m:
@@ -370,7 +371,7 @@ def run_doc(did, text, label='', faults=None, want_reval=True):
                     last_ele = (c['pos'], c['sub'])
                 if c['op'].endswith('_error'):
                     sid = segs[c['si'] - 1]['id'] if 1 <= c['si'] <= len(segs) else 'EOF'
-                    pos = c['rpos'] if c['rpos'] else (last_ele[0] if c['op'] == 'ele_error' and c['kind'] != 'syntax' else 0)
+                    pos = c['rpos'] if c['rpos'] else (last_ele[0] if c['op'] == 'ele_error' else 0)
                     errs2.append({'op': c['op'], 'code': c['code'], 'sid': sid, 'pos': pos})
         r['reval'] = {'map': ack_map_of(maps2), 'verdict': bool(v2), 'exc': exc2.split(':')[0], 'ran': True, 'errs': errs2[:12],
                       'msg': exc2[:120]}
@@ -1102,6 +1103,7 @@ def model_configs(prop, tier):
 
 
 def run_models(chk, prop, tier, rnd):
+    import json
     scns = []
     diffs = {}
     for label, cfg, sim, depth in model_configs(prop, tier):
@@ -1121,7 +1123,7 @@ def run_models(chk, prop, tier, rnd):
             for f in d['f5' if prop == 'C05' else 'f6']:
                 key = ' / '.join(x for x in f if x != '')
                 diffs[key] = diffs.get(key, 0) + 1
-        ss = res.payloads.get('SCN', [])
+        ss = sorted(res.payloads.get('SCN', []), key=lambda x: json.dumps(x['evs'], sort_keys=True))     # TLC prints in worker order
         if not ss:
             raise vlib.MachineryError('AckGen %s emitted no scenario' % label)
         ver = '5010' if 'Ver = "5010"' in cfg else '4010'
